@@ -25,7 +25,13 @@ from hypothesis import strategies as st
 from vp.ref.spin import cg, spin_range
 
 MASSES = [0.0, 0.135, 0.494, 0.938]
-LATEX = [None, "f_{0}", R"\pi^{+}", R"\overline{\Lambda}", "K^{*}(892)^{0}"]
+LATEX = [None, "f_{%d}", R"\pi^{+%d}", R"\overline{\Lambda}_{%d}", "K^{*}(89%d)^{0}"]
+
+
+def latex_of(variant: int, index: int):
+    """LaTeX name variants (underscores, braces, carets, parentheses), unique per particle."""
+    template = LATEX[variant % len(LATEX)]
+    return None if template is None else template % index
 
 
 # ----------------------------------------------------------------------- strategy
@@ -79,7 +85,11 @@ def reaction_strategy(  # noqa: PLR0913
             "mu": st.sampled_from([0.1, 0.3, 1.0]),
             "final": st.lists(_final_particle(spin2_max, allow_massless), min_size=n, max_size=n),
             "ident": (
-                st.one_of(st.just([]), st.lists(st.integers(0, n - 1), min_size=2, max_size=3, unique=True))
+                st.one_of(
+                    st.just([]), st.just([]), st.just([]), st.just([]),
+                    st.lists(st.integers(0, n - 1), min_size=2, max_size=2, unique=True),
+                    st.lists(st.integers(0, n - 1), min_size=2, max_size=3, unique=True),
+                )
                 if allow_identical
                 else st.just([])
             ),
@@ -186,7 +196,7 @@ def _make_particles(desc, topology, spins, res_params):
         particles[i] = Particle(
             name=f"F{src}",
             pid=100 + src,
-            latex=LATEX[fd["latex"]],
+            latex=latex_of(fd["latex"], src),
             spin=F(spins[("f", src)], 2),
             mass=fd["m"],
             parity=Parity(fd["P"]),
@@ -222,10 +232,15 @@ def build_reaction(desc, *, max_transitions=None) -> Built | None:  # noqa: C901
     bound = max_transitions or desc.get("max_transitions", 48)
     ident = list(desc.get("ident", []))
     # topologies (deduplicated)
-    topologies, topo_descs = [], []
+    # (deduplicated by structure: the sets of final states below the intermediate edges
+    # determine an isobar tree; copies that differ only in node numbering are not distinct
+    # topologies and qrules never emits them)
+    topologies, topo_descs, structures = [], [], set()
     for td in desc["topos"]:
         t = make_topology(n, td["idx"], td["perm"])
-        if t not in topologies:
+        structure = frozenset(attached(t, e) for e in intermediate_edges(t))
+        if structure not in structures:
+            structures.add(structure)
             topologies.append(t)
             topo_descs.append(td)
     # spins in units of 1/2
